@@ -563,7 +563,7 @@ func (f *Frame) staticCall(in ssa.Instruction, fn *ssa.Function, binds []SV, arg
 				c.fresh++
 			}
 			nf := &Frame{x: x, fn: fn, prefix: f.prefix + "/" + name + ":" + fn.Name(), env: map[ssa.Value]SV{}, depth: f.depth + 1,
-				stack: append(append([]string{}, f.stack...), key)}
+				stack: append(append([]string{}, f.stack...), key), parent: f, callBlock: in.Block()}
 			for i, fv := range fn.FreeVars {
 				if i < len(binds) {
 					nf.env[fv] = binds[i]
